@@ -79,15 +79,42 @@ def _probe(items):
             common.rmtree(d)
 
 
+KIND_CODES = {"dict": 0, "OrderedDict": 1, "list": 2, "set": 3, "Scope": 4, "tuple": 5, "object": 6}
+OPCODES = {"reset": 0, "w": 1, "ra": 3, "rk": 4}
+TRACES = []      # filled by classify_pair: (label, events of one run)
+KINDS = {}
+
+
+def compress(events):
+    """first events of a run, in order; events on a registry after this run reset it are dropped (once a registry is
+    reset every later stage reads determined state, `disciplined` is monotone in the reset set)"""
+    out, reset = [], set()
+    for kind, rid, key in events:
+        if rid in reset:
+            continue
+        if kind == "reset":
+            reset.add(rid)
+        out.append((kind, rid, key))
+    return out
+
+
 def classify_pair(a_item, b_item):
     s = _probe([a_item, b_item])
     a = _probe([b_item])
-    res = {}
+    KINDS.update(s.get("kinds", {}))
+    lab = lambda it: it.get("corpus") or os.path.basename(it.get("yaml", "?"))
+    traces = [("%s (fresh process)" % lab(a_item), compress(s["runs"][0]["events"]), s["runs"][0]["exc"]),
+              ("%s after %s" % (lab(b_item), lab(a_item)), compress(s["runs"][1]["events"]), s["runs"][1]["exc"])]
+    res = {"<traces>": traces}
     for rid in s["registries"]:
         init = s["initial"][rid]
         sa, sb = s["runs"][0]["snap"][rid], s["runs"][1]["snap"][rid]
         al = a["runs"][0]["snap"].get(rid)
-        if init == sa == sb == al:
+        if s["runs"][1]["exc"] and "PoisonRead" in s["runs"][1]["exc"] and rid in s["runs"][1]["exc"]:
+            res[rid] = (9, "object bound by the earlier run was used: " + s["runs"][1]["exc"][:80])
+        elif rid in s["runs"][1].get("unread_stale", ()):
+            res[rid] = (2, "")      # left over from the earlier run, neither rebound nor used by this run
+        elif init == sa == sb == al:
             res[rid] = (0, "")
         elif sb == al:
             res[rid] = (1, "")
@@ -103,11 +130,14 @@ def classify_pair(a_item, b_item):
 
 
 def registry_classes(extra_pairs=()):
+    del TRACES[:]
+    KINDS.clear()
     pairs = [({"corpus": a}, {"corpus": b}) for a, b in PROBE_PAIRS] + list(extra_pairs)
     with ThreadPoolExecutor(8) as ex:
         results = list(ex.map(lambda ab: classify_pair(*ab), pairs))
     worst, why = {}, {}
     for (a, b), res in zip(pairs, results):
+        TRACES.extend(res.pop("<traces>"))      # in the order of `pairs`, not of thread completion
         for rid, (c, w) in res.items():
             if c > worst.get(rid, -1):
                 worst[rid] = c
@@ -253,6 +283,32 @@ def render(rows, classes, why, amb):
     L.append(",\n".join('  "%s%s"' % (r, (" -- " + why[r].replace('"', "'")) if why.get(r) else "") for r in rids))
     L.append("]")
     L.append("")
+    L.append("/-- (registry index, container kind): 0 dict, 1 OrderedDict, 2 list, 3 set, 4 Scope, 5 tuple, 6 object -/")
+    L.append("def registryKinds : List (Nat × Nat) := [")
+    L.append(",\n".join("  (%d, %d)" % (i, KIND_CODES[KINDS.get(r, "object")]) for i, r in enumerate(rids)))
+    L.append("]")
+    L.append("")
+    L.append("/-- stage traces of real runs (first events, in order): (opcode, registry index, interned key);")
+    L.append("    opcode 0 reset, 1 write key, 3 read whole container, 4 read key -/")
+    L.append("def traceProgs : List (List (Nat × Nat × Nat)) := [")
+    ridx = {r: i for i, r in enumerate(rids)}
+    keys = {}
+    progs = []
+    for label, evs, exc in TRACES:
+        ops = []
+        for kind, rid, key in evs:
+            if rid not in ridx:
+                raise RuntimeError("trace mentions a registry that was not enumerated: %s" % rid)
+            if kind == "reset" and classes[rid] == 0:
+                # a reset site that ran on a registry whose contents never differ from import time (e.g. update_for_language on
+                # lua_statements, which has no c_/cxx_ variants: the pass is the identity there) is not a write
+                continue
+            k = keys.setdefault((rid, key), len(keys)) if key is not None else 0
+            ops.append("(%d, %d, %d)" % (OPCODES[kind], ridx[rid], k))
+        progs.append("  -- %s%s\n  [%s]" % (label, " (raised: %s)" % exc[:60].replace("\n", " ") if exc else "", ", ".join(ops)))
+    L.append(",\n".join(progs))
+    L.append("]")
+    L.append("")
     L.append("/-- ambient-state uses found by the AST scan: (file, function, what, line) -/")
     L.append("def ambientUses : List (String × String × String × Nat) := [")
     L.append(",\n".join('  ("%s", "%s", "%s", %d)' % h for h in amb))
@@ -280,7 +336,8 @@ def regenerate(extra_pairs=()):
     amb = ambient_uses()
     text = render(rows, classes, why, amb)
     changed = write_if_changed(GEN, text)
-    return {"lang_rows": len(rows), "registries": len(classes),
+    return {"lang_rows": len(rows), "registries": len(classes), "traces": [(t[0], len(t[1]), t[2]) for t in TRACES],
+            "kinds": {k: sum(1 for r in classes if KINDS.get(r) == k) for k in KIND_CODES},
             "classes": {r: c for r, c in classes.items() if c != 0},
             "leaks": {r: why[r] for r, c in classes.items() if c == 9},
             "ambient": amb, "changed": changed}
